@@ -236,7 +236,9 @@ func (e *FieldExpression) isEvaluable(msg proto.Message) bool {
 
 	// Prevent snake_case fields, since all FHIRPath fields need to be in
 	// camelCase.
-	if strcase.ToLowerCamel(e.FieldName) != e.FieldName {
+	// (an element name with consecutive capitals, e.g. carrierAIDC, is not its own
+	// lowerCamel form either, but it is the JSON name of a field of the message.)
+	if strcase.ToLowerCamel(e.FieldName) != e.FieldName && msg.ProtoReflect().Descriptor().Fields().ByJSONName(e.FieldName) == nil {
 		return false
 	}
 
